@@ -118,7 +118,8 @@ def r2_sync(ctx, repo, cls):
         if caught:
             h = caught[-1].node
             names = Enumerator.handler_names(h)
-            if not retried:
+            committed_later = any(ci > p.events.index(caught[-1]) for ci, _r in commits) and any(ei > p.events.index(caught[-1]) for ei, _c in execs)
+            if not retried and not committed_later:
                 bad = bad or (p, h, "an exception (%s) during the write is swallowed: sync_individual returns although nothing was committed" % ", ".join(str(n) for n in names))
             continue
         if not write_mode:
@@ -126,6 +127,9 @@ def r2_sync(ctx, repo, cls):
                 bad = bad or (p, fn, "writes in a non-write mode")
             continue
         n_write += 1
+        if len(execs) == 0:
+            bad = bad or (p, fn, "sync_individual can return in a write mode without having written the individual (e.g. after a bounded number of retries): the design is silently missing from the store")
+            continue
         if len(execs) != 1:
             bad = bad or (p, fn, "%d SQL statements are executed for one individual (expected the single upsert): a crash between them leaves a partial row" % len(execs))
             continue
